@@ -813,6 +813,41 @@ def _exits_consume( g, cons, node ):
     return False
 
 
+@rule( 'G-GATE', props=( 'C10', ), floor=1 )
+def g_gate( ctx ):
+    """a counted repetition ( dfa( ..., repeat='<path>' )) that is entered through a decide is gated by its own count and nothing else: the
+    predicate is the truthiness of data[ path + '<path>' ] ( or that count compared with 0 ).  A gate that also looks at another field skips
+    the repetition although the count asks for N runs: the N elements stay unconsumed and are handed to the enclosing grammar as something
+    else ( status 0x00 with two extended status words: the words are read as type and data of the reply )"""
+    res = Result( 'G-GATE' )
+    g = grammar_of( ctx )
+    seen = set()
+    for label, root in sorted( g.all_roots().items() ):
+        for n in g.nodes( root ):
+            for k, t in n.edges:
+                if not isinstance( t, Decide ) or t.cls != 'decide' or not isinstance( t.state, Node ) or t.site in seen:
+                    continue
+                rp = t.state.kw.get( 'repeat' )
+                if not isinstance( rp, str ):
+                    continue
+                seen.add( t.site )
+                src = src_of( ctx, t.site )
+                pred = t.predicate
+                body = pred.node.body if isinstance( pred, Closure ) and isinstance( pred.node, ast.Lambda ) else None
+                if body is None:
+                    raise AnalysisError( 'G-GATE: predicate of the decide into repeat=%r is not a lambda' % rp )
+                def is_count( e ):
+                    return isinstance( e, ast.Subscript ) and isinstance( e.value, ast.Name ) and isinstance( e.slice, ast.BinOp ) and isinstance( e.slice.op, ast.Add ) \
+                        and isinstance( e.slice.left, ast.Name ) and try_fold( e.slice.right ) == rp
+                ok = is_count( body ) or ( isinstance( body, ast.Compare ) and len( body.ops ) == 1 and is_count( body.left ) and try_fold( body.comparators[0] ) == 0 and isinstance( body.ops[0], ( ast.NotEq, ast.Gt )))
+                if ok:
+                    res.ok( src, L( t.site ), 'the repetition repeat=%r is entered iff its count is non-zero' % rp )
+                else:
+                    res.bad( src, L( t.site ), 'the repetition repeat=%r is gated by %s' % ( rp, norm_text( body )[:80] ),
+                             'a counted repetition must run exactly count times: a gate that depends on anything but the count skips it while the count is non-zero - the counted elements are left to the enclosing grammar and parsed as something else' )
+    return res
+
+
 @rule( 'G-LIMITS', props=( 'C10', ), floor=3 )
 def g_limits( ctx ):
     """the limits that tie a nested parser to a length parsed earlier are carried by the parsers that CONSUME: (a) every item parser created in
